@@ -226,6 +226,15 @@ func (c *Channel) JoinPresence(ctx context.Context, p stanza.Presence, opt ...Op
 		c.addr = newAddr
 	}
 
+	// Make sure the presence handler knows about the room (again) if we are
+	// joining after having left it.
+	c.client.managedM.Lock()
+	if c.client.managed == nil {
+		c.client.managed = make(map[string]*Channel)
+	}
+	c.client.managed[c.addr.String()] = c
+	c.client.managedM.Unlock()
+
 	ctx, cancel := context.WithCancel(ctx)
 	defer cancel()
 
